@@ -537,6 +537,41 @@ def _grid_isel(run, P):
                     argk = [str_const(n.slice) for n in ast.walk(r.value) if isinstance(n, ast.Subscript) and str_const(n.slice)]
                     for k in keys:
                         found[k] = (callee, argk, r)
+    table_form = None
+    if not found:
+        # second idiom: a dict {dim: slicer} indexed with the requested dimension, called with the indices that came with that same dimension
+        tables = {}
+        for st in iter_stmts(f.node.body):
+            if isinstance(st, ast.Assign) and isinstance(st.targets[0], ast.Name) and isinstance(st.value, ast.Dict) and all(k is not None and str_const(k) for k in st.value.keys) \
+                    and all(isinstance(v, ast.Name) for v in st.value.values):
+                tables[st.targets[0].id] = ({str_const(k): v.id for k, v in zip(st.value.keys, st.value.values)}, st)
+        pair = None     # (dim name, indices name) unpacked together from <kwargs>.items()
+        for st in iter_stmts(f.node.body):
+            if isinstance(st, ast.Assign) and isinstance(st.value, ast.Call) and isinstance(st.value.func, ast.Attribute) and st.value.func.attr == "items":
+                t = st.targets[0]
+                while isinstance(t, (ast.Tuple, ast.List)) and len(t.elts) == 1:
+                    t = t.elts[0]
+                if isinstance(t, (ast.Tuple, ast.List)) and len(t.elts) == 2 and all(isinstance(e, ast.Name) for e in t.elts):
+                    pair = (t.elts[0].id, t.elts[1].id)
+        for r in [x for x in ast.walk(f.node) if isinstance(x, ast.Return) and isinstance(x.value, ast.Call) and isinstance(x.value.func, ast.Subscript)]:
+            fn_ = r.value.func
+            if isinstance(fn_.value, ast.Name) and fn_.value.id in tables and pair and norm(fn_.slice) == pair[0] and any(isinstance(a, ast.Name) and a.id == pair[1] for a in r.value.args):
+                table_form = (tables[fn_.value.id], r)
+    if table_form:
+        (tb, tst), r = table_form
+        for k, callee in want.items():
+            c = f"Grid.isel:route[{k}]"
+            if tb.get(k) == callee:
+                run.holds("F-TABLE/isel-dispatch", c, where(f, r), f"{k} -> {callee}(self, <indices passed for {k}>) through the slicer table")
+            elif k in tb:
+                run.violation("F-TABLE/isel-dispatch", c, where(f, tst), f"{k} is routed to {tb[k]}")
+            else:
+                run.violation("F-TABLE/isel-dispatch", c, where(f, tst), f"no entry for {k} in the slicer table")
+        return
+    if not found:
+        for k in want:
+            run.incomplete("F-TABLE/isel-dispatch", f"Grid.isel:route[{k}]", where(f), "dispatch of the grid dimensions not recognised")
+        return
     for k, callee in want.items():
         c = f"Grid.isel:route[{k}]"
         if k not in found:
@@ -561,7 +596,9 @@ def _slice_from_grid(run, P):
             if isinstance(x, ast.Compare) and len(x.ops) == 1 and isinstance(x.ops[0], ast.In) and str_const(x.left) in DIM_KIND and norm(x.comparators[0]) == "self.dims":
                 return DIM_KIND[str_const(x.left)]
         return None
-    st = next((s for s in f.node.body if isinstance(s, ast.If)), None)
+    from ..flow import sequential_reads
+    body_ = sequential_reads(f.node).body      # locals standing for a read (kept = sliced_grid._ds[...]) are substituted branch by branch
+    st = next((s for s in body_ if isinstance(s, ast.If)), None)
     while st is not None:
         kind = kind_of_test(st.test)
         if kind:
@@ -572,7 +609,7 @@ def _slice_from_grid(run, P):
                 if isinstance(x, ast.Call) and isinstance(x.func, ast.Attribute) and x.func.attr == "isel":
                     # isel(n_face=<indexer>)   |   isel({"n_face": <indexer>})   |   isel(indexers={...})
                     pairs = [(k.arg, k.value) for k in x.keywords if k.arg not in (None, "indexers")]
-                    for d_ in [a for a in x.args[:1]] + [k.value for k in x.keywords if k.arg == "indexers"]:
+                    for d_ in [a for a in x.args[:1]] + [k.value for k in x.keywords if k.arg == "indexers"] + [k.value for k in x.keywords if k.arg is None]:
                         if isinstance(d_, ast.Dict):
                             pairs += [(str_const(kk), vv) for kk, vv in zip(d_.keys, d_.values) if kk is not None]
                     for arg, val in pairs:
